@@ -325,3 +325,10 @@ def run(ctx):
             ctx.violation(f"Graph::build_sampler::<{D2}> after build_sampler::<{c['D']}> of the same graph in one process: status {b2.get('status')} / table differ from "
                           f"generate_from_tropical for D = {D2} ({h2.get('status')})", dict(dreqs[3 * i + 1], first_built_for_D=c["D"]),
                           expected=h2.get("status"), observed=b2.get("status") if b2.get("status") != h2.get("status") else "a different table")
+
+    # ---- the probabilities J(g\e)/(omega(g\e) J(g)) and the normalisation as the GENERIC code uses them: a few samples with a user scalar type
+    # that wraps f64 arithmetic must come back bit for bit as with f64 (table constants lifted with from_f64, divided in the user's type)
+    from .. import sample_checks as SC_
+    ss = S_.generate(ctx, 4 if ctx.quick else 16, 3, max_e=5, max_loops=3, routings_per_graph=1, kinds=("uniform",))
+    S_.run(ss)
+    SC_.generic_scalar_guard(ctx, ss, k=8 if ctx.quick else 32)
